@@ -7,6 +7,16 @@ from .codec import WILD, Some, opt
 
 MODES = [(False, False), (False, True), (True, False), (True, True)]
 
+# The documented defaults of the public signatures (model/Defaults.v; gen/GenObl_Cxx.v ties them to the source).  The harness leaves a
+# flag OUT whenever it has its documented default: "default mode" means calling without the flag, so a changed default shows here too.
+DOC_DEFAULTS = {"strict": False, "passthrough": False, "case_sensitive": True, "merge": False, "include_synonyms": False, "expand": False,
+                "ambiguous": False, "delimiter": ":", "sep": ":", "metaprefix": "ns", "cutoff": None, "delimiters": None, "converter": None,
+                "target_column": None}
+
+
+def flags(**kw):
+    return {k: v for k, v in kw.items() if not (k in DOC_DEFAULTS and DOC_DEFAULTS[k] == v and type(DOC_DEFAULTS[k]) is type(v))}
+
 # ---------------------------------------------------------------- pools
 DELIMS = [":", ":", ":", ":", "/", "::", "|", "_", "-", "é", ":/"]
 CP_POOL = ["go", "GO", "Go", "a", "b", "ab", "", "http", "https", "x", "y", "chebi", "CHEBI", "straße", "STRASSE",
@@ -260,7 +270,7 @@ def battery_str(c, s):
     ]
     names = list(STR_HEAD)
     for st, pa in MODES:
-        kw = dict(strict=st, passthrough=pa)
+        kw = flags(strict=st, passthrough=pa)
         th += [
             lambda kw=kw: outcome(lambda: c.compress(s, **kw), v_ostr),
             lambda kw=kw: outcome(lambda: c.expand(s, **kw), v_ostr),
@@ -285,7 +295,7 @@ def battery_pair(c, p, i):
     ]
     names = list(PAIR_HEAD)
     for st, pa in MODES:
-        kw = dict(strict=st, passthrough=pa)
+        kw = flags(strict=st, passthrough=pa)
         th += [
             lambda kw=kw: outcome(lambda: c.expand_pair(p, i, **kw), v_ostr),
             lambda kw=kw: outcome(lambda: c.expand_reference(ReferenceTuple(p, i), **kw), v_ostr),
@@ -327,7 +337,7 @@ def construct(recs, d):
     from curies.api import DuplicatePrefixes, DuplicateURIPrefixes
 
     try:
-        return 0, curies.Converter(mk_records(recs), delimiter=d)
+        return 0, curies.Converter(mk_records(recs), **flags(delimiter=d))
     except DuplicateURIPrefixes:
         return 1, None
     except DuplicatePrefixes:
@@ -400,14 +410,14 @@ def build_converter(recs, d, mode, warm=None):
     import curies
 
     if mode == 0:
-        return curies.Converter(mk_records(recs), delimiter=d)
+        return curies.Converter(mk_records(recs), **flags(delimiter=d))
     if mode == 5:
-        return curies.Converter(one_shot(mk_records(recs), len(recs)), delimiter=d)
+        return curies.Converter(one_shot(mk_records(recs), len(recs)), **flags(delimiter=d))
     if mode == 6:
-        c = curies.Converter(mk_records(recs), delimiter=d)
+        c = curies.Converter(mk_records(recs), **flags(delimiter=d))
         use_as_derivation_input(c)
         return c
-    c = curies.Converter([], delimiter=d)
+    c = curies.Converter([], **flags(delimiter=d))
     step = (lambda: warm(c)) if (mode == 4 and warm) else (lambda: None)
     step()
     if mode == 1:
